@@ -204,7 +204,14 @@ def xml_cases(tj, rng):
             add("xml-nsroot", l, xml, local, None, None, want)
             xml, local = xml_for(root, ns=ns0.swapcase())
             add("xml-nsroot-case", l, xml, local, None, None, want)
-    # a namespaced root whose namespace is the first entry of no table: recognised by its root element? (MetInf)
+    # a namespaced root whose namespace opens no table is recognised by the local name of its root element
+    # (fix 8a5d5ba: <MetInf xmlns="syncml:metinf">, DRMREL o-ex:rights, and any foreign namespace)
+    for l in langs:
+        loc = l["root"].rsplit(":", 1)[-1]
+        want = first(x for x in langs if x["root"].rsplit(":", 1)[-1] == loc)
+        want = pinned(tj, "root", l["root"], want)
+        xml, local = xml_for(loc, ns="urn:no-such-namespace")
+        add("xml-local-root-foreign-ns", l, xml, local, None, None, want)
     for l in langs:
         if l["root"] == "MetInf":
             xml, local = xml_for("MetInf", ns="syncml:metinf")
